@@ -32,6 +32,9 @@ def gen(n, seed):
             st = l.strip()
             if st.startswith("//") or st.startswith("#[") or "const " in l or st.startswith("use ") or "debug_assert" in l:
                 continue
+            # type-level syntax (trait bounds, lifetimes, generics, signatures): mutants there do not compile
+            if any(t in l for t in ("dyn ", "impl<", "impl ", "where ", "'a +", "-> ", "fn ", "struct ", "enum ", "type ", "trait ", "Box<", ": R", ": W", "<'", "format!", "\"")):
+                continue
             code = l.split("//")[0]
             for k, (pat, rep) in enumerate(OPS):
                 for m in re.finditer(pat, code):
